@@ -84,6 +84,12 @@ class Resolver:
         for b in runion["branches"]:
             if self.matches(w, b):
                 return b
+        if wd["k"] in ("array", "map"):
+            # a collection branch of the same kind whose item / value types do not match as schemas: whether that matters
+            # depends on the items of the datum at hand (resolve() decides item by item, see there)
+            for b in runion["branches"]:
+                if deref(b, self.rt)["k"] == wd["k"]:
+                    return b
         raise NoResult("no reader branch matches")
 
     def resolve(self, w, r, buf, pos=0, depth=0):
